@@ -298,6 +298,7 @@ def make_traced_ref(ctx, elem, loop_obj):
     r.count = 0
     r.cb = cb
     ctx.refs[elem] = r
+    rec.rec('ref', elem, 'new', 0, 0)
     return r
 
 
@@ -510,6 +511,9 @@ def interval_arg(n):
     """the documented alternative spelling of an interval: a pandas time string ('250ms')"""
     if n.get('interval_str'):
         return '%dms' % round(n['interval'] * 1000)
+    if n.get('interval_np') and float(n['interval']).is_integer():
+        import numpy as np
+        return np.int64(n['interval'])         # (a number taken from an array or a data-frame cell)
     return n['interval']
 
 
